@@ -98,7 +98,8 @@ def append_only_rule(repo, chk, fn, frame, oid, depth=0):
     paths = run_paths(fn, None, None, max_forks=6)
     F = ('name', frame)
     good_pats = [pattern(m, f'pandas.concat([{frame}, NEW], axis=1)', ['NEW']), pattern(m, f'pandas.concat(({frame}, NEW), axis=1)', ['NEW']), pattern(m, f"pandas.concat([{frame}, NEW], axis='columns')", ['NEW']),
-                 pattern(m, f'{frame}.join(NEW)', ['NEW']), pattern(m, f'pandas.concat([{frame}, NEW], axis=1, copy=CP)', ['NEW', 'CP'])]
+                 pattern(m, f'pandas.concat([{frame}, NEW], axis=1, copy=CP)', ['NEW', 'CP'])]
+    join_pats = [pattern(m, f'{frame}.join(NEW)', ['NEW']), pattern(m, f'{frame}.merge(NEW, left_index=True, right_index=True)', ['NEW'])]
     ok_all, any_new = True, False
     if paths is None:
         chk.unsure(oid, 'R11', fn.site(), 'return <extended frame>', 'too many undecidable tests to evaluate what the constructor returns')
@@ -125,6 +126,12 @@ def append_only_rule(repo, chk, fn, frame, oid, depth=0):
             b = unify(gp, rt)
             if b is not None:
                 break
+        if b is None and any(unify(jp, rt) is not None for jp in join_pats):
+            # a relational join on the row labels: with repeated labels every left row is paired with EVERY new row of that label
+            chk.bad(oid, 'R11', site, shown, f'the new columns are attached with a join on the row labels instead of pd.concat([{frame}, <new columns>], axis=1): on a frame with repeated row labels the rows multiply and '
+                    'carry the new values of other rows, so the original rows / row count are not preserved')
+            ok_all = False
+            continue
         if b is not None:
             new_t = b['NEW']
             if any(x == F for x in walk_term(new_t)) and new_t[:2] != ('call', ('lib', 'pandas.DataFrame')):
@@ -176,6 +183,19 @@ def wrappers(repo, chk):
             # the frame is handed over positionally (first) or by keyword; nothing else is a frame
             cands = list(c.args[:1]) + [k.value for k in c.keywords if k.arg in ('dataframe', 'df', 'input_dataframe', 'data')]
             return len(cands) == 1 and ast.unparse(cands[0]) == frame
+        # the noise constructor is told which column is the label (second parameter): without it the default None applies and the control that copies
+        # the label (CONTROL-target) is never built
+        if name == 'include_noisy_features' and len(cs) == 1:
+            tgt_ = repo.func(RT, 'FeatureTransformerNoise.construct_new_features')
+            ps_ = [q for q in tgt_.params if q != 'self']
+            if len(ps_) >= 2:
+                ba_ = bind_args(cs[0], tgt_, skip_self=True)
+                lab = ba_.get(ps_[1])
+                if lab is None and not any(k.arg is None for k in cs[0].keywords):
+                    chk.bad('C11.5w', 'R6', fn.site(cs[0]), ast.unparse(cs[0]).replace('\n', ' ')[:120], f'the noise constructor is called without its `{ps_[1]}` argument: the default applies, no label is known, and the '
+                            'control column that replicates the label (CONTROL-target) is not appended')
+                elif lab is not None and 'label' not in ast.unparse(lab):
+                    chk.unsure('C11.5w', 'R6', fn.site(cs[0]), ast.unparse(cs[0]).replace('\n', ' ')[:120], f'what is handed to `{ps_[1]}` of the noise constructor is not visibly the configured label column')
         ok = len(cs) == 1 and frame_arg(cs[0]) and len(rets) == 1
         if ok and isinstance(rets[0].value, ast.Name):
             par = parents(fn.node)
